@@ -124,7 +124,8 @@ def check_publish_shape(res, rule, w: Write, ef) -> None:
         return
     target_txt = [unparse(t) for t in st.targets if isinstance(t, ast.Attribute) and t.attr == w.field]
     loc = target_txt[0] if target_txt else ''
-    guards = [(unparse(t.ast), lab) for t, lab in dom.guards_of(g, node) if t.kind == 'test']
+    # a guard may test a local that holds what was read from the location (`t = self._type; if t is None: ...`): the test is taken on what it computes
+    guards = [(unparse(dom.expand(g, t.ast, t)), lab) for t, lab in dom.guards_of(g, node) if t.kind == 'test']
     guarded = any(loc and loc in txt for txt, _ in guards) or any(f".{w.field}" in txt for txt, _ in guards)
     # __init__ of a schema-family object initialises its own fields: that is construction, not publication
     if f.name == '__init__' or f.is_setter:
